@@ -6,6 +6,7 @@ package world
 import (
 	"context"
 	"crypto/mlkem"
+	"database/sql"
 	"fmt"
 	"io"
 	"os"
@@ -427,7 +428,9 @@ func (w *World) buildStack(name string, spec StackSpec) (partstore.PartStore, er
 		if err != nil {
 			return nil, err
 		}
-		cur = ec
+		lm := w.seam(ec, name+".ec")
+		lm.LockModel = true
+		cur = lm
 		layers = layers[1:]
 	} else {
 		b, err := w.bottom(name, spec.Bottom, "")
@@ -554,4 +557,87 @@ func (w *World) Snapshot() (string, error) {
 		return "", err
 	}
 	return dir, nil
+}
+
+// ReferencedParts returns, per store name ("" = default), the part ids that
+// committed rows of the parts table reference.
+func (w *World) ReferencedParts(ctx context.Context) (map[string]map[string]int, error) {
+	out := map[string]map[string]int{}
+	tx, err := w.DB.BeginTx(ctx, &sql.TxOptions{ReadOnly: true})
+	if err != nil {
+		return nil, err
+	}
+	defer tx.Rollback(ctx)
+	rows, err := tx.SqlTx().QueryContext(ctx, "SELECT part_id, COALESCE(part_store_name, '') FROM parts")
+	if err != nil {
+		return nil, err
+	}
+	defer rows.Close()
+	for rows.Next() {
+		var id, store string
+		if err := rows.Scan(&id, &store); err != nil {
+			return nil, err
+		}
+		if out[store] == nil {
+			out[store] = map[string]int{}
+		}
+		out[store][id]++
+	}
+	return out, rows.Err()
+}
+
+// StoredParts returns, per store name, the ids the store lists (through the top of its stack).
+func (w *World) StoredParts(ctx context.Context) (map[string]map[string]bool, error) {
+	out := map[string]map[string]bool{}
+	tx, err := w.DB.BeginTx(ctx, &sql.TxOptions{ReadOnly: true})
+	if err != nil {
+		return nil, err
+	}
+	defer tx.Rollback(ctx)
+	for name, ps := range w.Stores {
+		ids, err := ps.GetPartIds(ctx, tx)
+		if err != nil {
+			return nil, err
+		}
+		out[name] = map[string]bool{}
+		for _, id := range ids {
+			out[name][id.String()] = true
+		}
+	}
+	return out, nil
+}
+
+// QueryInt runs a single-value integer query on a read-only transaction.
+func (w *World) QueryInt(ctx context.Context, q string, args ...any) (int64, error) {
+	tx, err := w.DB.BeginTx(ctx, &sql.TxOptions{ReadOnly: true})
+	if err != nil {
+		return 0, err
+	}
+	defer tx.Rollback(ctx)
+	var n int64
+	err = tx.SqlTx().QueryRowContext(ctx, q, args...).Scan(&n)
+	return n, err
+}
+
+// QueryStrings runs a query returning one text column.
+func (w *World) QueryStrings(ctx context.Context, q string, args ...any) ([]string, error) {
+	tx, err := w.DB.BeginTx(ctx, &sql.TxOptions{ReadOnly: true})
+	if err != nil {
+		return nil, err
+	}
+	defer tx.Rollback(ctx)
+	rows, err := tx.SqlTx().QueryContext(ctx, q, args...)
+	if err != nil {
+		return nil, err
+	}
+	defer rows.Close()
+	var out []string
+	for rows.Next() {
+		var s string
+		if err := rows.Scan(&s); err != nil {
+			return nil, err
+		}
+		out = append(out, s)
+	}
+	return out, rows.Err()
 }
